@@ -22,7 +22,7 @@ from checks import common, plug
 PROPERTY = "C18"
 LEVEL = "exploration"
 MODES = ["O0"]
-TIERS = {"quick": {"runs": 1500, "wall": 55}, "thorough": {"runs": 30000, "wall": 1500}}
+TIERS = {"quick": {"runs": 4000, "wall": 55}, "thorough": {"runs": 30000, "wall": 1500}}
 RULE = ("plan = 2..5 seeded PELs whose UD/ED/SRC/callout sections target a seeded plugin population (2..10 fake "
         "modules with per-call fault tables + near-miss names; shipped plugins real) + -P in a fifth of the plans; "
         "history = -f on every PEL then -a on the directory in one module set, repeated in a healthy twin world.  "
